@@ -1,5 +1,5 @@
 SPECIFICATION Spec
-CONSTANT MaxLen = 8
+CONSTANT MaxLen = 7
 CONSTANT Instances = {"mem"}
 INVARIANT DepsExact
 INVARIANT ConflictsOrdered
